@@ -1,7 +1,6 @@
 """Bounded native searches for the HTTP carriers (C11 Streamable HTTP, C12 legacy SSE): the REAL transports driven through
 httpx.MockTransport / scripted event streams and compared with oracles written from the property text.  Inputs listed as
-known findings of C11 (batch array body, JSON object that is no message, non-object result) are deliberately not part of
-the grids.  See native_stdio.py for the role of these searches."""
+known findings of C11 (JSON object that is no message, non-object result) are deliberately not part of the grids.  See native_stdio.py for the role of these searches."""
 from __future__ import annotations
 
 import asyncio
@@ -55,6 +54,9 @@ def c11_behaviours():
     B.append(("200 json charset", lambda r: httpx.Response(200, content=json.dumps(resp(r["id"])).encode(),
                                                             headers={"content-type": "application/json; charset=utf-8"}),
               lambda r: [resp(r["id"])]))
+    B.append(("200 json batch array: 2 notifications + response", lambda r: httpx.Response(200, json=[notif, notif, resp(r["id"])]),
+              lambda r: [notif, notif, resp(r["id"])]))
+    B.append(("200 json batch array with one member", lambda r: httpx.Response(200, json=[resp(r["id"])]), lambda r: [resp(r["id"])]))
     for nl, space, with_event, comments in itertools.product(("\n", "\r\n"), (" ", ""), (True, False), (False, True)):
         lab = f"200 sse nl={nl!r} space={space!r} event_field={with_event} comments={comments}"
         B.append((lab + " [response]",
@@ -75,6 +77,15 @@ def c11_behaviours():
     B.append(("200 json raw unicode separators", lambda r: httpx.Response(
         200, content=json.dumps(uni(r["id"]), ensure_ascii=False).encode("utf-8"), headers={"content-type": "application/json"}),
               lambda r: [uni(r["id"])]))
+    B.append(("200 sse: data-less typed event, then an event without event field",
+              lambda r: httpx.Response(200, content=("event: ping\n\ndata: " + json.dumps(resp(r["id"])) + "\n\n").encode(),
+                                       headers={"content-type": "text/event-stream"}),
+              lambda r: [resp(r["id"])]))
+    B.append(("200 sse: comment-only block and empty data-less events between two messages",
+              lambda r: httpx.Response(200, content=(": hi\n\nevent: message\n\nevent: message\ndata: " + json.dumps(notif)
+                                                     + "\n\n\n\ndata: " + json.dumps(resp(r["id"])) + "\n\n").encode(),
+                                       headers={"content-type": "text/event-stream"}),
+              lambda r: [notif, resp(r["id"])]))
     for st in (400, 401, 404, 500, 503):
         B.append((f"{st} text body", (lambda st: lambda r: httpx.Response(st, text="boom"))(st), lambda r: "one_terminal_error"))
         B.append((f"{st} json body", (lambda st: lambda r: httpx.Response(st, json={"detail": "boom"}))(st), lambda r: "one_terminal_error"))
@@ -433,7 +444,7 @@ def search_c12(tier="quick"):
     _quiet()
     n = 0
     # chunk independence of the event stream
-    msg1 = '{"jsonrpc":"2.0","method":"notifications/message","params":{"data":"café €"}}'
+    msg1 = '{"jsonrpc":"2.0","method":"notifications/message","params":{"data":"café € a\u2028b\u0085c\u2029d"}}'
     msg2 = '{"jsonrpc":"2.0","id":3,"result":{}}'
     text = f"event: endpoint\ndata: /messages/?session_id=abc\n\nevent: message\r\ndata: {msg1}\r\n\r\n: ping\nevent: message\ndata: {msg2}\n\n"
     want = [("endpoint", "/messages/?session_id=abc"), ("message", msg1), ("message", msg2)]
